@@ -194,6 +194,12 @@ class TypeEnv:
                 return base[1]
             if base and base[0] == 'map':
                 return base[2]
+            if base and base[0] == 'cls' and not isinstance(node.slice, ast.Slice):
+                # an in-repo class with an annotated __getitem__
+                at = self.attr_type(base, '__getitem__')
+                if at and at[0] == 'method':
+                    ci = self.prog.classes[at[1]]
+                    return self.from_annotation(ci.methods[at[2]].returns, ci.module, ci.qual)
             return None
         if isinstance(node, ast.IfExp):
             a, b = self.expr_type(fn, node.body, env, _d + 1), self.expr_type(fn, node.orelse, env, _d + 1)
